@@ -10,6 +10,9 @@ CHECKS = {
  "C02": ("I", "exhaustive small-scope enumeration of add-only ordered route tables x probe paths on the real router, compared with an executable reference resolver of the documented procedure (admissible-set oracle)",
          "Same table and probe space as C01 (add-only, every registration order); the observed route and parameters must be in the set ref.Resolve admits, 404 exactly when that set is empty.",
          "The reference resolver is the trusted statement of the documented rules (DESIGN 3.6); bounded table size and path length.", "4/C02"),
+ "C04": ("S", "explicit-state BFS over registration/removal histories on the real router (with and without WithTrace), four-view method-set oracle against the reference table in every state",
+         "Every history over the C04 alphabet up to depth 3 (quick) / 5 (thorough) on five patterns that split one another; in every reachable state the Allow header of OPTIONS and 405 responses as sent, Node().Methods(), Node().AllowHeader(), Routes() and OPTIONS * are compared with the model, including the initial state observed in a virgin process.",
+         "Bounded depth and pool; the OPTIONS/405 handlers are the harness's builder-made handlers which read AllowHeader() at request time, as README and examples/std do.", "4/C04"),
  "C03": ("S", "explicit-state BFS over Handle/Remove/Clean histories on the real router, dedup on a reflective dump of its private state, reference table + resolver as oracle on every state",
          "Every history over the C03 alphabet up to the depth bound (quick 3, thorough 5), from every reachable deduplicated implementation state, probed with every method on witness and first-byte-variant paths; Routes(), dispatch, frame condition and no-panic are checked in every state against an independent table model.",
          "Bounded depth and finite pattern pool; the state merge relies on the reflective dump covering all router state (field-generic, so new fields are included automatically).", "4/C03"),
